@@ -634,7 +634,11 @@ func genText17(c *Ctx, maxEntries int) (string, string) {
 	case x < 17:
 		return commentSoup17(r, maxEntries), "soup"
 	case x < 18:
-		return "", "empty"
+		if r.IntN(3) == 0 {
+			return "", "empty"
+		}
+		// outside the property's domain (a CR that is not part of CRLF): correspondence only
+		return strings.Replace(genJournal17(r, randFeat(r), maxEntries), "\n", "\r", 1+r.IntN(2)), "lonecr"
 	default:
 		return genDoc(r, maxEntries*2, 24), "arbitrary"
 	}
@@ -754,10 +758,13 @@ func genHist17(c *Ctx) map[string]any {
 			op.k = "range"
 			op.lo, op.hi = genLineNo(r, cur[u]), genLineNo(r, cur[u])
 			c.Count("hist.range")
+		case lastID[u] == "" && x%4 != 0:
+			op.k = "full"
+			c.Count("hist.full")
 		default:
 			op.k = "delta"
 			switch y := r.IntN(20); {
-			case y < 11 && lastID[u] != "":
+			case y < 9 && lastID[u] != "":
 				op.prev = lastID[u]
 				c.Count("hist.delta.current")
 			case y < 15 && len(oldIDs[u]) > 0:
